@@ -290,8 +290,13 @@ def cmp_analysis(ctx, o, r, fam, where, kw, rtol=1e-8):
 # generators (the library module is passed in)
 # ------------------------------------------------------------------------------------------
 def rand_idl(rng, n, kind):
-    """Sorted configuration numbers (python ints)."""
+    """Sorted configuration numbers (python ints); now and then beyond 255, 65535, 2**31 (no small integer type may be assumed)."""
     start = int(rng.integers(1, 60))
+    u = rng.random()
+    if u < 0.06:
+        start = int(10 ** int(rng.integers(3, 10)) + rng.integers(0, 50))
+    elif u < 0.09:
+        start = int(3 * 10 ** 9 + rng.integers(0, 50))
     if kind == 'contig':
         return list(range(start, start + n))
     if kind == 'strided':
@@ -392,6 +397,8 @@ def primary(pe, rng, chains, kind, table=None):
             x = x.tolist()
         samples.append(x)
         form = str(rng.choice(['list', 'ndarray', 'native', 'int32', 'npints']))
+        if form == 'int32' and max(cfgs) > 2 ** 31 - 1:
+            form = 'ndarray'
         if form == 'ndarray':
             idls.append(np.array(cfgs, dtype=np.int64))
         elif form == 'int32':
@@ -518,6 +525,7 @@ class Family:
             self.cvs = rand_covobs(pe, rng, dims=dims, extreme=self.cov_extreme) if support in ('cov', 'mixed') else []
         self.cov_extreme = self.cov_extreme and bool(self.cvs)
         self.mags = mags
+        self.spectators = 0
 
     def magnitude(self):
         rng = self.rng
@@ -548,7 +556,13 @@ class Family:
             if how == 'primary' and len(prims) == 1:
                 o = prims[0]
             elif how in ('primary', 'linear'):
-                o = sum(float(rng.uniform(0.5, 2.0)) * p for p in prims)
+                coef = [float(rng.uniform(0.5, 2.0)) for p in prims]
+                if len(prims) > 1 and rng.random() < 0.2:
+                    # spectator: an ensemble that enters with coefficient exactly 0 (first, last or any slot);
+                    # its chains stay in the observable with fluctuations that are exactly zero
+                    coef[int(rng.choice([0, len(prims) - 1, int(rng.integers(0, len(prims)))]))] = 0.0
+                    self.spectators += 1
+                o = sum(c * p for c, p in zip(coef, prims))
             elif how == 'product':
                 o = prims[0]
                 for p in prims[1:]:
@@ -563,7 +577,15 @@ class Family:
                 lin = sum(float(10.0 ** rng.uniform(-70, 70)) * float(rng.choice([-1, 1])) * c for c in comps)
                 o = lin if o is None else o + lin
                 continue
-            lin = sum(float(rng.uniform(0.3, 2.0)) * float(rng.choice([-1, 1])) * c for c in comps)
+            cc = [float(rng.uniform(0.3, 2.0)) * float(rng.choice([-1, 1])) for c in comps]
+            if rng.random() < 0.2:
+                # spectator components: gradient entries that are exactly zero (one of them, or the whole covariance input)
+                if len(cc) > 1 and rng.random() < 0.6:
+                    cc[int(rng.choice([0, len(cc) - 1]))] = 0.0
+                elif o is not None:
+                    cc = [0.0 for c in cc]
+                self.spectators += 1
+            lin = sum(k * c for k, c in zip(cc, comps))
             if o is None:
                 o = lin if rng.random() < 0.5 else lin * comps[0]
             elif rng.random() < 0.5:
